@@ -323,6 +323,12 @@ class CaseRun:
                 conn.seq_message = C.SeqNum(int(kvs["sm"]))
             if "sf" in kvs:
                 conn.seq_fragment = C.SeqNum(int(kvs["sf"]))
+            if "bp" in kvs:
+                conn.bitfield_pkt.current_seqnum = C.SeqNum(int(kvs["bp"]))
+                conn.bitfield_pkt.bits = 0
+            if "bm" in kvs:
+                conn.bitfield_msg.current_seqnum = C.SeqNum(int(kvs["bm"]))
+                conn.bitfield_msg.bits = 0
             if "tt" in kvs:
                 conn.temp_connection_timeout = int(kvs["tt"]) / TICK
             if "ccb" in kvs:
@@ -339,6 +345,7 @@ class CaseRun:
             cb = None if kvs.get("cb", "-") == "-" else real.user_cb(conn, int(kvs["cb"]))
             payload = lcg_bytes(n, seed)
             del conn._v_events[:]
+            mseq0 = int(conn.seq_message)
             try:
                 conn.send(payload, retry=retry, callback=cb)
                 out.append("ok")
@@ -349,7 +356,8 @@ class CaseRun:
             if log is not None:
                 log.append({"op": "send", "e": w[1], "t": real.now, "len": n, "digest": digest(payload), "retry": retry,
                             "cb": kvs.get("cb", "-"), "res": res, "status": conn.status.value,
-                            "frag": n > C.Packet.MAX_PAYLOAD_SIZE, "mtu": C.Packet.MTU})
+                            "frag": n > C.Packet.MAX_PAYLOAD_SIZE, "mtu": C.Packet.MTU,
+                            "mseq_before": mseq0, "mseq_after": int(conn.seq_message)})
         elif op == "disc":
             conn = eps[w[1]]["conn"]
             cb = None
@@ -635,7 +643,10 @@ def gen_two_party(real, rng, cid, mtu=1500, steps=50, loss=0.15, dup=0.1, delay=
         for e in "ab":
             emit("set %s key=%s status=2 si=%d ka=%d ot=%d" % (e, k, si, ka, ot))
             if start:
-                emit("set %s ss=%d sm=%d sf=%d" % (e, start.get("ss", 0), start.get("sm", 0), start.get("sf", 0)))
+                # a connection that has been running for a while: counters near the wrap, and each side has received the
+                # peer's latest datagram and message (a header with ack = 0 next to sequence numbers near 65535 cannot occur)
+                emit("set %s ss=%d sm=%d sf=%d bp=%d bm=%d" % (e, start.get("ss", 0), start.get("sm", 0), start.get("sf", 0),
+                                                               max(1, start.get("ss", 0)), max(1, start.get("sm", 0))))
         sizes = sizes or size_pool(mtu)
         t = BASE_T + rng.randint(0, 3000)
         emit("now %d" % t)
@@ -663,7 +674,8 @@ def gen_two_party(real, rng, cid, mtu=1500, steps=50, loss=0.15, dup=0.1, delay=
                     inflight.append([t + rng.randint(1, max_delay), dst, e, kk])
 
         for step in range(steps):
-            t += rng.choice([si, si, si + 1, 2 * si, 3 * si, 100, 300]) if not burst else si
+            # also polls faster than the send interval: the rate cap itself must hold the second build back
+            t += rng.choice([1, max(1, si // 2), si - 1, si, si, si + 1, 2 * si, 3 * si, 100, 300]) if not burst else si
             deliver_due(t)
             for e in rng.sample("ab", 2):
                 nsend = rng.choice([0, 1, 1, 2, 3]) if rng.random() < send_rate else 0
